@@ -31,6 +31,12 @@ def decorations(quick, seed):
                     did = '%s_e%02d' % (bn, j)
                     j += 1
                     decs.append((did, bn, progs.decorate_embed(b, did, s, e, twice), 'embed%s [%d:%d)' % (' twice' if twice else '', s, e)))
+    # ONE struct type embedded in several places (root, an optional group, a repeated group)
+    sb = progs.shared_base()
+    bases['shared'] = sb
+    for i, places in enumerate(([[], ['In']], [['In'], ['Lst']], [[], ['In'], ['Lst']], [[]])):
+        did = 'shared_s%02d' % i
+        decs.append((did, 'shared', progs.decorate_embed_shared(sb, did, places), 'embed shared type @' + '+'.join('.'.join(w) or 'top' for w in places)))
     if quick:
         rnd = random.Random(seed)
         # keep every excluded type and both decoration families represented
@@ -42,7 +48,7 @@ def decorations(quick, seed):
                 cand = [d for d in ex if d[3].startswith(md + ' ' + t + ' @')]
                 pick += rnd.sample(cand, min(1, len(cand)))
         pick += rnd.sample(em, min(13, len(em)))
-        pick += [d for d in decs if d[3].startswith('unexported-names')]
+        pick += [d for d in decs if d[3].startswith('unexported-names') or d[3].startswith('embed shared')]
         decs = pick
     return bases, decs
 
